@@ -19,6 +19,7 @@ for i in range(0,len(pairs),2):
     s=s.replace(old,new)
 open(p,'w').write(s)
 PY
+mkdir -p /verif/selftest/$prop
 out=/verif/selftest/$prop/$name.diff
 { echo "# property: $prop"; echo "# expect: $expect"; echo "# why: $why"; (cd $tmp && diff -u a/$file b/$file || true); } > $out
 rm -rf $tmp
